@@ -50,7 +50,7 @@ def handle (op : String) (j : Json) : Except String Json := do
     pure (reply m (some s))
   | "chunked" =>
     let k ← getNat j "k"
-    let chunks := readAllChunks oc on names k body
+    let chunks := (readAllChunks oc on names k body).map (·.1)
     let m := Json.mkObj [("recs", Json.arr ((chunks.flatten).map mj).toArray), ("chunks", natList (chunks.map List.length))]
     let s := Json.mkObj [("recs", Json.arr ((recs.map (view names)).map sj).toArray)]
     pure (reply m (some s))
